@@ -419,7 +419,11 @@ func patternWithoutTrailingGlob(p *patternmatcher.Pattern) string {
 	// We use filepath.Separator here because patternmatcher.Pattern patterns
 	// get transformed to use the native path separator:
 	// https://github.com/moby/patternmatcher/blob/130b41bafc16209dc1b52a103fdac1decad04f1a/patternmatcher.go#L52
-	patStr = strings.TrimSuffix(patStr, string(filepath.Separator)+"**")
+	// strip one trailing glob only: "a/*/**" minus "/**" is "a/*", which still
+	// has a wildcard in it and must not be mistaken for the plain prefix "a"
+	if trimmed := strings.TrimSuffix(patStr, string(filepath.Separator)+"**"); trimmed != patStr {
+		return trimmed
+	}
 	patStr = strings.TrimSuffix(patStr, string(filepath.Separator)+"*")
 	return patStr
 }
